@@ -11,6 +11,7 @@ package main
 import (
 	"fmt"
 	"math/rand"
+	"net"
 	"sort"
 	"strconv"
 	"strings"
@@ -38,6 +39,7 @@ type brCase struct {
 	Reopen        bool       `json:"reopen,omitempty"`
 	Jitter        bool       `json:"jitter,omitempty"` // park senders briefly at br.written (between write and promise enqueue)
 	PauseUs       int        `json:"pause_us,omitempty"`
+	WriteFailAt   int        `json:"write_fail_at,omitempty"` // the k-th write of the client fails with a timeout, nothing written (0 = none)
 	Kinds         []string   `json:"kinds"`
 	Seed          int64      `json:"seed"`
 }
@@ -220,6 +222,9 @@ func brRandomCase(tier string, seed int64, idx int) brCase {
 	if rng.Intn(3) == 0 {
 		c.PauseUs = 50 + rng.Intn(300)
 	}
+	if rng.Intn(100) < 20 {
+		c.WriteFailAt = 1 + rng.Intn(total)
+	}
 	nk := 1 + rng.Intn(len(brAllKinds))
 	perm := rng.Perm(len(brAllKinds))
 	for _, i := range perm[:nk] {
@@ -258,20 +263,21 @@ type brCall struct {
 }
 
 type brResult struct {
-	c          brCase
-	calls      []*brCall
-	srv        *rawServer
-	stuck      bool
-	inconcl    string
-	parked     []string
-	closeSeq   int64 // stamp before the controller's Close()
-	closeRet   int64
-	closeErr   error
-	reopenRet  int64 // stamp after Open() returned
-	openErr    error
-	closeStuck bool
-	written    int
-	jitterHits int32
+	writeFaults int32 // client writes failed on purpose
+	c           brCase
+	calls       []*brCall
+	srv         *rawServer
+	stuck       bool
+	inconcl     string
+	parked      []string
+	closeSeq    int64 // stamp before the controller's Close()
+	closeRet    int64
+	closeErr    error
+	reopenRet   int64 // stamp after Open() returned
+	openErr     error
+	closeStuck  bool
+	written     int
+	jitterHits  int32
 }
 
 func brInvoke(b *sarama.Broker, kind, tok string) (content string, nilResp bool, err error) {
@@ -369,6 +375,9 @@ func runBrokerCase(c brCase) *brResult {
 	conf.Net.DialTimeout = 2 * time.Second
 	conf.Net.Proxy.Enable = true
 	conf.Net.Proxy.Dialer = srv
+	if c.WriteFailAt > 0 {
+		conf.Net.Proxy.Dialer = &brFaultyDialer{inner: srv, failAt: int32(c.WriteFailAt), res: res}
+	}
 
 	sink := newSink()
 	defer sink.retire()
@@ -607,9 +616,15 @@ func brJudge(res *brResult, rec *proto.Rec) {
 	peakOver := -1 << 30
 	for _, cn := range srv.conns {
 		connByID[cn.ID] = cn
+		// a correlation id names one request of a connection: two requests under one id cannot be told apart
+		seenCorr := map[int32]string{}
 		for _, r := range cn.all {
 			reqByToken[r.Token] = r
 			recvTotal++
+			if prev, dup := seenCorr[r.Corr]; dup {
+				addViol("duplicate-correlation-id", "kinds="+brKindPair(prev, r.Kind), fmt.Sprintf("connection %d: requests %s and %s (%s) were both sent with correlation id %d", cn.ID, prev, r.Token, r.Kind, r.Corr))
+			}
+			seenCorr[r.Corr] = r.Token + "(" + r.Kind + ")"
 		}
 		if cn.trouble != 0 {
 			if firstTrouble == 0 || cn.trouble < firstTrouble {
@@ -656,6 +671,14 @@ func brJudge(res *brResult, rec *proto.Rec) {
 				legit := res.closeSeq != 0 && cl.RetSeq > res.closeSeq && (res.reopenRet == 0 || cl.CallSeq < res.reopenRet)
 				if !legit {
 					addViol("spurious-error", "not-connected-without-close", fmt.Sprintf("call %s (%s) returned ErrNotConnected; call stamps [%d,%d], Close at %d, re-Open returned at %d", cl.Token, cl.Kind, cl.CallSeq, cl.RetSeq, res.closeSeq, res.reopenRet))
+				}
+				continue
+			}
+			if cl.Err == error(errInjectedWrite) {
+				// the client's own write was made to fail: this call has its error, nothing was sent
+				rec.Obs["calls_failed_by_injected_write_error"]++
+				if sr != nil {
+					addViol("crosstalk", "request-on-the-wire-after-failed-write", fmt.Sprintf("call %s (%s) returned the injected write error, yet the server received its request", cl.Token, cl.Kind))
 				}
 				continue
 			}
@@ -890,6 +913,55 @@ func brJudge(res *brResult, rec *proto.Rec) {
 	case nStarted == 0 || (recvTotal == 0 && firstTrouble == 0):
 		rec.Verdict, rec.Why = "inconclusive", "no-observation: no request reached the server"
 	}
+}
+
+// brKindPair names the two request kinds involved (for the signature: no spaces, order-free).
+func brKindPair(prev, kind string) string {
+	a := prev
+	if i := strings.Index(prev, "("); i >= 0 {
+		a = strings.TrimSuffix(prev[i+1:], ")")
+	}
+	if a > kind {
+		a, kind = kind, a
+	}
+	return a + "+" + kind
+}
+
+// a write that times out without a byte written, injected below the Broker
+type brWriteTimeout struct{}
+
+func (*brWriteTimeout) Error() string   { return "injected write timeout (0 bytes written)" }
+func (*brWriteTimeout) Timeout() bool   { return true }
+func (*brWriteTimeout) Temporary() bool { return true }
+
+var errInjectedWrite = &brWriteTimeout{}
+
+type brFaultyDialer struct {
+	inner  *rawServer
+	failAt int32
+	n      int32
+	res    *brResult
+}
+
+func (d *brFaultyDialer) Dial(network, addr string) (net.Conn, error) {
+	c, err := d.inner.Dial(network, addr)
+	if err != nil {
+		return nil, err
+	}
+	return &brFaultyConn{Conn: c, d: d}, nil
+}
+
+type brFaultyConn struct {
+	net.Conn
+	d *brFaultyDialer
+}
+
+func (c *brFaultyConn) Write(b []byte) (int, error) {
+	if atomic.AddInt32(&c.d.n, 1) == c.d.failAt {
+		atomic.AddInt32(&c.d.res.writeFaults, 1)
+		return 0, errInjectedWrite
+	}
+	return c.Conn.Write(b)
 }
 
 type brDelivery struct {
